@@ -377,7 +377,8 @@ impl Prop for C06 {
                             emit("redundant", render(&toks, &g, &uniform(&g, 0)), &tree, None, sink);
                         }
                         // as a function argument
-                        for (f, extra) in [("round", None), ("floor", None), ("ceil", None), ("round", Some("1"))] {
+                        // (the last two: the digits argument is itself a call - each argument is evaluated as a unit)
+                        for (f, extra) in [("round", None), ("floor", None), ("ceil", None), ("round", Some("1")), ("round", Some("floor(1.5)")), ("round", Some("(ceil(0.2))"))] {
                             for full in [false, true] {
                                 let mut toks = vec![T::Fn(f), T::L];
                                 tokens(&tree, full, false, &mut toks);
